@@ -72,6 +72,9 @@ def _main(tier, seeded_only, pids, subs):
         mf = os.path.join(d, 'meta.json')
         if os.path.exists(mf):
             meta = json.load(open(mf))
+            if 'caught_by' in meta and not meta['caught_by']:
+                print("seeded    %-8s %-55s DOCUMENTED MISS: %s" % (meta['property'], os.path.basename(d), meta.get('status', '')[:160]))
+                continue
             items.append(('seeded', os.path.basename(d), meta['property'], dict(diff=os.path.join(d, 'patch.diff'),
                           checks=meta.get('caught_by', [meta['property']]))))
     results = []
